@@ -24,6 +24,15 @@ func scenarioC06(c *hlib.RunCtx) *hlib.Violation {
 	if c.Flag("family") == "corruption" {
 		return scenarioC06Corruption(c)
 	}
+	if c.Flag("family") == "wellformed" {
+		// (c) the well-formed files of the C10 histories (names of every shape and
+		// size, stack names with methods and closures): only what Parse says counts here.
+		if v := scenarioC10(c); v != nil && strings.HasPrefix(v.Invariant, "parse-") {
+			v.Property = "C06"
+			return v
+		}
+		return nil
+	}
 	// (a) ride on the C04 world with the Parse oracle switched on.
 	c.Flags["parse-snapshots"] = "1"
 	// The world's other oracles belong to C03/C04; the known C03 defect is kept
@@ -69,7 +78,11 @@ func scenarioC06Corruption(c *hlib.RunCtx) *hlib.Violation {
 	}
 	_, meta, ok := learnMeta(w, bi, wk)
 	if !ok {
-		panic("learnMeta failed")
+		// The library's own header is not one the strict decoder reads (C10's
+		// business); Parse is exercised on metadata written from the documentation.
+		meta = refformat.MetaText([][2]string{{"TimeBegin", "2024-03-01T00:00:00Z"}, {"TimeEnd", "2024-03-08T00:00:00Z"}, {"Program", bi.Path}, {"Version", "v1.2.3"},
+			{"GoVersion", bi.GoVersion}, {"GOOS", "linux"}, {"GOARCH", "amd64"}})
+		c.Note("learnmeta-fallback")
 	}
 	c.Note("nontrivial")
 	data, desc, _ := corruptFile(t, meta, false)
